@@ -641,7 +641,22 @@ func genCase(t *rapid.T) Case {
 		switch kind {
 		case "heading":
 			lvl := rapid.IntRange(1, 6).Draw(t, "level")
-			c.Blocks = append(c.Blocks, Blk{Kind: "heading", Level: lvl, Text: tok() + " " + tok()})
+			txt := tok() + " " + tok()
+			// section titles repeat in real documents ("Overview" under every part): reuse an earlier title
+			var earlier []string
+			for _, b := range c.Blocks {
+				if b.Kind == "heading" {
+					earlier = append(earlier, b.Text)
+				}
+			}
+			if len(earlier) > 0 && rapid.IntRange(0, 4).Draw(t, "repeatTitle") == 0 {
+				txt = rapid.SampledFrom(earlier).Draw(t, "earlierTitle")
+				// known finding (chunk collections only): the title of the heading right before this one
+				if c.Target == "rag" && txt == earlier[len(earlier)-1] && !vr.Want("rag-consecutive-same-title", true) {
+					txt = tok() + " " + tok()
+				}
+			}
+			c.Blocks = append(c.Blocks, Blk{Kind: "heading", Level: lvl, Text: txt})
 			depth = -1
 		case "para":
 			c.Blocks = append(c.Blocks, Blk{Kind: "para", Text: tok() + " " + tok() + " " + tok()})
@@ -717,7 +732,14 @@ func meta(c Case) vr.Meta {
 	js, _ := json.Marshal(c)
 	labels := []string{"target:" + c.Target}
 	nt := false
+	titles := map[string]bool{}
 	for _, b := range c.Blocks {
+		if b.Kind == "heading" {
+			if titles[b.Text] {
+				labels = append(labels, "repeated-title")
+			}
+			titles[b.Text] = true
+		}
 		labels = append(labels, c.Target+":"+b.Kind)
 		switch b.Kind {
 		case "table":
